@@ -950,8 +950,15 @@ package frugal
 //@   functype
 //@   modifies *
 
+// A successful Subscribe has registered the subscription at the broker: the SUB was sent and the
+// connection flushed (round trip) before it returns, so a message published afterwards, on any connection,
+// is delivered (C07).
 //@ func lib.fNatsSubscriberTransport.Subscribe(n, topic, callback)
 //@   locals sub, err, i
+//@   ensures result == nil ==> ncalls("nats.go.Conn.QueueSubscribe") == 1 && ncalls("nats.go.Conn.FlushTimeout") == 1
+//@   ensures result == nil ==> callret("nats.go.Conn.QueueSubscribe", 0, 1) == nil && callret("nats.go.Conn.FlushTimeout", 0, 0) == nil
+//@   ensures result == nil ==> inorder("nats.go.Conn.QueueSubscribe", "nats.go.Conn.FlushTimeout")
+//@   ensures result == nil ==> n.isSubscribed
 //@   modifies *
 //@   loop 0 invariant n == n0 && n.isSubscribed && n.quitC != nil && !cclosed(n.quitC)
 // Unsubscribe tells this subscription's workers to stop: NATS after the broker accepted the unsubscribe,
